@@ -126,6 +126,43 @@ func whereHasStringLiteral(pc *types.ParseContext) bool {
 	return f.found
 }
 
+// temporalImage: the image the AT executor takes for the statement holds a temporal column: DELETE and upsert
+// image whole rows of a table that has one; INSERT / UPDATE image the columns they name.
+func temporalImage(p *Program, ty types.SQLType, sql string) bool {
+	low := " " + strings.ToLower(sql) + " "
+	for _, ddl := range p.Setup {
+		d := strings.ToLower(ddl)
+		if !strings.HasPrefix(d, "create table ") {
+			continue
+		}
+		name := strings.Fields(d[len("create table "):])[0]
+		if !strings.Contains(low, " "+name+" ") && !strings.Contains(low, " "+name+"(") {
+			continue
+		}
+		for _, def := range strings.Split(d[strings.Index(d, "(")+1:], ",") {
+			f := strings.Fields(def)
+			if len(f) < 2 || !(strings.HasPrefix(f[1], "date") || strings.HasPrefix(f[1], "timestamp")) {
+				continue
+			}
+			if ty == types.SQLTypeDelete || ty == types.SQLTypeInsertOnDuplicateUpdate {
+				return true
+			}
+			head := low
+			if i := strings.Index(low, " where "); i >= 0 {
+				head = low[:i]
+			}
+			for _, sep := range []string{" ", ",", "("} {
+				for _, end := range []string{" ", ",", ")", "="} {
+					if strings.Contains(head, sep+f[0]+end) {
+						return true
+					}
+				}
+			}
+		}
+	}
+	return false
+}
+
 func interpolates(params string) bool {
 	if params == "" {
 		return true
@@ -156,13 +193,17 @@ func Describe(p *Program) {
 			}
 			xid := p.Segs[si].Gtx && !o.Plain
 			dml := pc.SQLType == types.SQLTypeUpdate || pc.SQLType == types.SQLTypeDelete
+			anyDML := dml || pc.SQLType == types.SQLTypeInsert || pc.SQLType == types.SQLTypeInsertOnDuplicateUpdate
 			switch {
-			case xid && dml && !o.Query && (o.Prepared || (len(o.Args) > 0 && !interpolates(p.Params))):
+			case xid && dml && !o.Query && o.Prepared:
 				// Stmt.ExecContext inside a global transaction: the image builders have no connection (or, before the
 				// table is in the meta cache, no schema name to look it up)
 				o.Expect = "stmt.prepared-in-gtx=seata:invalid-conn|seata:no-table-meta"
 			case xid && (pc.SQLType == types.SQLTypeUpdate || pc.SQLType == types.SQLTypeDelete) && whereHasStringLiteral(pc):
 				o.Expect = "where.string-literal=sql:1054"
+			case xid && anyDML && !o.Prepared && o.Conn == "" && strings.Contains(p.Params, "parseTime=false") && temporalImage(p, pc.SQLType, o.SQL):
+				// the image builder scans DATE/DATETIME/TIMESTAMP columns into time.Time, which needs parseTime=true
+				o.Expect = "dsn.parsetime-off.temporal=seata:scan-error"
 			}
 		}
 	}
@@ -373,7 +414,15 @@ func tokenize(tr *atrun.Trace, meta map[int]bool, st atrun.StepResult, business 
 			}
 		case strings.HasPrefix(low, "savepoint "), strings.HasPrefix(low, "rollback to "), strings.HasPrefix(low, "release savepoint "):
 			toks = append(toks, Tok{T: "SP", Ok: ok})
-		case d.Kind == fakedb.JQuery && strings.HasPrefix(low, "select"):
+		case d.Kind == fakedb.JPrepare && (strings.HasPrefix(low, "select") || strings.HasPrefix(low, "show variables")):
+			// an image / auxiliary query issued through a prepared statement (the driver answered ErrSkip to the
+			// direct call): it counts once, at its STMT_QUERY
+			if !ok {
+				toks = append(toks, Tok{T: "X:" + d.Kind, Ok: ok})
+			}
+		case (d.Kind == fakedb.JQuery || d.Kind == fakedb.JStmtQuery) && strings.HasPrefix(low, "show variables"):
+			toks = append(toks, Tok{T: "AUX", Ok: ok, Nz: nz})
+		case (d.Kind == fakedb.JQuery || d.Kind == fakedb.JStmtQuery) && strings.HasPrefix(low, "select"):
 			toks = append(toks, Tok{T: "IMG", Ok: ok, Nz: nz})
 		default:
 			toks = append(toks, Tok{T: "X:" + d.Kind, Ok: ok, Nz: nz})
@@ -473,7 +522,7 @@ func eraseExtra(toks []Tok, bracket bool) []Tok {
 	out := []Tok{}
 	for _, t := range toks {
 		switch {
-		case t.T == "IMG", t.T == "META", t.T == "SP", t.T == "UNDO", t.T == "UNDOP", strings.HasPrefix(t.T, "TC:"):
+		case t.T == "IMG", t.T == "AUX", t.T == "META", t.T == "SP", t.T == "UNDO", t.T == "UNDOP", strings.HasPrefix(t.T, "TC:"):
 		case bracket && (t.T == "BEGIN" || t.T == "COMMIT" || t.T == "ROLLBACK"):
 		default:
 			out = append(out, t)
@@ -526,10 +575,16 @@ func oracle(c *Case) {
 					if (t.T == "BIZ:EXEC" || t.T == "BIZ:STMT_EXEC") && t.Ok {
 						applied = true
 					}
+					if t.T == "ROLLBACK" && t.Ok {
+						applied = false // executed inside the proxy's bracket, which was rolled back
+					}
 				}
 				got := a.ErrClass
 				if got == "other" && strings.Contains(a.ErrText, "columnMeta") {
 					got = "seata:no-table-meta"
+				}
+				if got == "other" && strings.Contains(a.ErrText, "Scan error") {
+					got = "seata:scan-error"
 				}
 				okClass := false
 				for _, w := range strings.Split(want, "|") {
